@@ -92,7 +92,15 @@ pub fn run_script(rt: &tokio::runtime::Runtime, mode: &str, script: &str, opts: 
     }
 }
 
-pub fn main_sh(cases: Vec<Vec<String>>) {
+pub fn run(sub: &str, cases: &[Vec<String>]) -> bool {
+    if sub != "sh" {
+        return false;
+    }
+    main_sh(cases);
+    true
+}
+
+fn main_sh(cases: &[Vec<String>]) {
     let rt = tokio::runtime::Builder::new_multi_thread()
         .worker_threads(2)
         .enable_all()
@@ -102,8 +110,9 @@ pub fn main_sh(cases: Vec<Vec<String>>) {
         let mode = c.first().map(|s| s.as_str()).unwrap_or("s").to_string();
         let script = unhex_str(c.get(1).map(|s| s.as_str()).unwrap_or("-"));
         let opts = c.get(2).cloned().unwrap_or_default();
+        let opts = opts.as_str();
         let r = std::panic::catch_unwind(std::panic::AssertUnwindSafe(|| {
-            run_script(&rt, &mode, &script, &opts)
+            run_script(&rt, &mode, &script, opts)
         }));
         match r {
             Ok(r) => println!("{} {} {}", r.status, hex(&r.out), hex(&r.err)),
